@@ -18,20 +18,28 @@
             ClearCountsRows = TRUE models the repaired clear(n) (rows of the removed lines are counted);
             FALSE is the pinned code (`_lines -= n`, cursor-up n), kept so that TLC can exhibit the defect.
             PlainNewline = TRUE models the repaired plain-mode write_line (newline kept); FALSE the pinned code.
+   Gates:   every section has its own quiet flag and verbosity (`gate`; a new section is not quiet, verbosity 0 -
+            nothing is inherited).  A write_line carrying a message-level flag (1 verbose, 2 very verbose,
+            4 debug) that the gate does not let through - or any write on a quiet section - is *suppressed*: it
+            changes neither the screen nor the content (P), and the code returns before any bookkeeping (A).
+            clear / overwrite on a quiet section: QuietClears = FALSE keeps them out of the domain (the code
+            empties its bookkeeping but cannot touch the screen - see notes, finding 3); TRUE is the proposed
+            repair: they are suppressed like a write.
    TLC checks A => P: ScreenMatches / PlainAppend / NoControl are invariants of Spec.                       *)
 EXTENDS Naturals, Sequences, Terminal
 LOCAL INSTANCE SequencesExt       \* FoldLeft (iterative)
 
-CONSTANTS ClearCountsRows, PlainNewline
+CONSTANTS ClearCountsRows, PlainNewline, QuietClears
 
 VARIABLES ansi,     \* BOOLEAN: the output decorates (ANSI) or not (plain); fixed per behaviour
           pre,      \* lines on the output before any section wrote
           content,  \* P: Seq (sections in creation order) of Seq(line)
           plog,     \* P, plain mode: every line written so far, in call order
+          gate,     \* P: Seq of [quiet : BOOLEAN, verb : 0..4]  per section
           secs,     \* A: Seq of [content : Seq(line), lines : Nat]
           term,     \* the terminal (environment)
           last      \* the last operation as an event record [op, s, lines, n, ops]
-vars == <<ansi, pre, content, plog, secs, term, last>>
+vars == <<ansi, pre, content, plog, gate, secs, term, last>>
 
 \* ------------------------------------------------------------------ P-layer
 Concat(ss) == FoldLeft(LAMBDA acc, x : acc \o x, <<>>, ss)
@@ -40,6 +48,10 @@ PWrite(cs, i, ls) == [cs EXCEPT ![i] = @ \o ls]
 PClear(cs, i) == [cs EXCEPT ![i] = <<>>]
 PClearN(cs, i, n) == [cs EXCEPT ![i] = SubSeq(@, 1, Len(@) - n)]          \* domain: 1 <= n <= Len(cs[i])
 POverwrite(cs, i, ls) == [cs EXCEPT ![i] = ls]
+
+\* Output._may_write: quiet suppresses everything; a flag asks for at least that verbosity (0 = always)
+MayWrite(g, flag) == ~g.quiet /\ (flag = 0 \/ g.verb >= flag)
+NewGate == [quiet |-> FALSE, verb |-> 0]
 
 ExpectedScreen(p, cs, w) == Visible(FoldAll(p \o Concat(cs), w))
 ExpectedPlain(p, log, w) == Visible(FoldAll(p \o log, w))
@@ -96,18 +108,24 @@ NoLines == <<>>
 Event(op, i, ls, n, ops) == [op |-> op, s |-> i, lines |-> ls, n |-> n, ops |-> ops]
 
 InitWith(w, a, p) ==
-  /\ ansi = a /\ pre = p /\ content = <<>> /\ plog = <<>> /\ secs = <<>>
+  /\ ansi = a /\ pre = p /\ content = <<>> /\ plog = <<>> /\ gate = <<>> /\ secs = <<>>
   /\ term = ApplyOps(TermNew(w), Emitted(p))
   /\ last = Event("init", 0, p, w, Emitted(p))
 
 \* what an operation does to the P-state (pc, pl) and what the A-layer emits / becomes (a) - one case table
 \* shared by the actions below and by SectionsTrace (which applies the *observed* ops to the terminal instead)
+\* for "write" n is the message-level flag (0, 1, 2, 4), for "clearn" the number of lines
 InDomain(op, i, n) ==
   /\ op \in {"write", "overwrite", "clear", "clearn"} /\ i \in 1..Len(secs)
   /\ op = "clearn" => (n >= 1 /\ (ansi => n <= Len(content[i])))
+  /\ op = "write" => n \in {0, 1, 2, 4}
+  /\ (op # "write" /\ gate[i].quiet) => QuietClears
+
+Suppressed(op, i, n) == IF op = "write" THEN ~MayWrite(gate[i], n) ELSE gate[i].quiet
 
 Effect(op, i, ls, n) ==
-  IF ansi THEN
+  IF Suppressed(op, i, n) THEN [pc |-> content, pl |-> plog, a |-> PlainNothing(secs)]
+  ELSE IF ansi THEN
     CASE op = "write"     -> [pc |-> PWrite(content, i, ls),     pl |-> plog, a |-> AWrite(secs, i, ls, term.w)]
       [] op = "overwrite" -> [pc |-> POverwrite(content, i, ls), pl |-> plog, a |-> AOverwrite(secs, i, ls, term.w)]
       [] op = "clear"     -> [pc |-> PClear(content, i),         pl |-> plog, a |-> AClear(secs, i)]
@@ -122,14 +140,25 @@ Do(op, i, ls, n) ==
        /\ content' = e.pc /\ plog' = e.pl /\ secs' = e.a.secs
        /\ term' = ApplyOps(term, e.a.ops)
        /\ last' = Event(op, i, ls, n, e.a.ops)
-  /\ UNCHANGED <<ansi, pre>>
+  /\ UNCHANGED <<ansi, pre, gate>>
 
 Create ==
   /\ content' = Append(content, <<>>) /\ secs' = Append(secs, [content |-> <<>>, lines |-> 0])
+  /\ gate' = Append(gate, NewGate)
   /\ last' = Event("create", Len(secs) + 1, NoLines, 0, <<>>)
   /\ UNCHANGED <<ansi, pre, plog, term>>
 
+\* set_quiet / set_verbosity on one section: no output, no change of content
+SetGate(op, i, n) ==
+  /\ i \in 1..Len(secs)
+  /\ gate' = IF op = "quiet" THEN [gate EXCEPT ![i].quiet = (n = 1)] ELSE [gate EXCEPT ![i].verb = n]
+  /\ last' = Event(op, i, NoLines, n, <<>>)
+  /\ UNCHANGED <<ansi, pre, content, plog, secs, term>>
+SetQuiet(i, q) == SetGate("quiet", i, IF q THEN 1 ELSE 0)
+SetVerbosity(i, v) == v \in {0, 1, 2, 4} /\ SetGate("verb", i, v)
+
 WriteLine(i, ls) == Do("write", i, ls, 0)
+WriteLineFlag(i, ls, flag) == Do("write", i, ls, flag)
 Overwrite(i, ls) == Do("overwrite", i, ls, 0)
 Clear(i) == Do("clear", i, NoLines, 0)
 ClearN(i, n) == Do("clearn", i, NoLines, n)
